@@ -264,3 +264,35 @@ Fixpoint pmon_run (p : pstate) (cab cba : list bool) (ops : list sop)
 
 Definition mon_pair (ops : list sop) (rs : list (out * snap * snap)) : bool :=
   pmon_run ps_init [] [] ops rs.
+
+(** * Reading a trace: what was handed in, what came out *)
+
+Definition side_eqb (x y : side) : bool :=
+  match x, y with SA, SA => true | SB, SB => true | _, _ => false end.
+
+(** the messages the application of [x] handed to BTP and BTP took *)
+Fixpoint submitted (x : side) (ops : list sop) (rs : list (out * snap * snap)) : list bytes :=
+  match ops, rs with
+  | SSubmit y d :: ops', (RTrue, _, _) :: rs' =>
+      if side_eqb x y then d :: submitted x ops' rs' else submitted x ops' rs'
+  | _ :: ops', _ :: rs' => submitted x ops' rs'
+  | _, _ => []
+  end.
+
+(** the messages the application of [x] got out of BTP *)
+Fixpoint fetched (x : side) (ops : list sop) (rs : list (out * snap * snap)) : list bytes :=
+  match ops, rs with
+  | SFetch y :: ops', (RBytes msg, _, _) :: rs' =>
+      if side_eqb x y then msg :: fetched x ops' rs' else fetched x ops' rs'
+  | _ :: ops', _ :: rs' => fetched x ops' rs'
+  | _, _ => []
+  end.
+
+(** an answer a well-behaved pair may give: never a panic, an error only to
+    an application that hands in an empty or over-long message *)
+Definition answer_ok (o : sop) (r : out) : Prop :=
+  match r with
+  | RPanic _ => False
+  | RErr _ => match o with SSubmit _ d => blen d = 0 \/ MAX_TX < blen d | _ => False end
+  | _ => True
+  end.
